@@ -169,6 +169,7 @@ def r2_mutators(ctx, repo, clip_params):
             continue
         iv, pv = hdr[0], hdr[1]
         bad = None
+        unresolved = None
         npaths = 0
         for p in Enumerator(loop_counts=(0, 1)).function_paths(body_fn(lp.body, fn.args, lp.lineno)):
             npaths += 1
@@ -207,10 +208,15 @@ def r2_mutators(ctx, repo, clip_params):
                     bad = bad or (a, "the mutation of parameter %s is clipped to (%s, %s), not to (%s['bounds'][0], %s['bounds'][1])" % (iv, res(lo_a), res(hi_a), pv, pv))
                 if text(a.args[0]) != "%s[%s]" % (parent, iv):
                     bad = bad or (a, "the mutated coordinate is %s, not the parent's coordinate %s" % (text(a.args[0]), iv))
+            elif isinstance(a, ast.Call) and isinstance(a.func, ast.Name) and not a.func.id[:1].isupper() and a.func.id not in ("min", "max", "float", "int", "round", "abs"):
+                # a function value the rule cannot resolve (callback parameter, local closure): nothing is known about its result
+                unresolved = unresolved or (a, "the mutated value is produced by %s(...), a function value the rule cannot resolve" % a.func.id)
             else:
                 bad = bad or (a, "appended element %s is neither the parent's coordinate nor a clipped mutation" % text(a))
         if bad:
             ctx.violated("R2", C, where(mod, bad[0]), bad[1])
+        elif unresolved:
+            ctx.inconclusive("R2", C, where(mod, unresolved[0]), unresolved[1])
         else:
             VERIFIED_OPS[cname] = True
             ctx.holds("R2", C, where(mod, fn), "each coordinate is the parent's or clip(mutation, bounds[0], bounds[1]) of the same parameter; one element per parameter (%d body paths)" % npaths)
